@@ -46,6 +46,12 @@ def prepare(root, seed):
         _atomic(f"{root}/d{i}.yaml", yaml.safe_dump(d, sort_keys=False).encode())
         E = refenc.Encoder(cwt_payload_bstr=False).envelope(d)
         _atomic(f"{root}/e{i}.suit", E)
+        from .. import drive as _drive
+        _names = set()
+        _drive._payload_strings(d, _names)
+        _atomic(f"{root}/decoy_names_{i}.json", json.dumps(sorted(
+            s for s in _names if 0 < len(s.encode("utf-8", "replace")) <= 120 and "/" not in s and "\0" not in s
+            and s not in (".", ".."))).encode())
         ops += [{"op": "create", "id": f"create-json-{i}", "src": f"{root}/d{i}.json", "group": f"create-{i}"},
                 {"op": "create", "id": f"create-yaml-{i}", "src": f"{root}/d{i}.yaml", "group": f"create-{i}"},
                 {"op": "create-object-twice", "id": f"create-twice-{i}", "src": f"{root}/d{i}.json",
